@@ -90,7 +90,8 @@ public:
 	// Remove when this session object is a private object for this token.
 	bool removeOnTokenLogout(CK_SLOT_ID inSlotID);
 
-	// These functions are just stubs for session objects
+	// Session objects live in memory only; a transaction keeps a copy of the
+	// attributes so that an aborted transaction leaves the object unchanged
 	virtual bool startTransaction(Access access);
 	virtual bool commitTransaction();
 	virtual bool abortTransaction();
@@ -108,6 +109,12 @@ private:
 
 	// The object's raw attributes
 	std::map<CK_ATTRIBUTE_TYPE, OSAttribute*> attributes;
+
+	// The attributes as they were when the current transaction was started
+	std::map<CK_ATTRIBUTE_TYPE, OSAttribute*> savedAttributes;
+
+	// Is a transaction in progress?
+	bool inTransaction;
 
 	// The object's validity state
 	bool valid;
